@@ -37,9 +37,9 @@ CHECKS = {
    note="Trusted: TLC, the hand-entered documented tables (tools/gen_registers_tla.py), raw_slot() in replay_registers.rs. Four open known findings (SPARC window aliases) are listed in known-findings.json."),
  "C11": dict(
    level="model_checking", design_ref="DESIGN.md section 5 'C11'",
-   technique="TLA+ declarative (linear-scan) specification of fill_symbol (SymLookup.tla) with C11 predicates checked by TLC over every symbol file built from candidate record pools; every file rendered, parsed by the real parser and queried through the real fill_symbol at every address under three module bases",
+   technique="TLA+ declarative (linear-scan) specification of fill_symbol (SymLookup.tla) with C11 predicates checked by TLC over every symbol file built from candidate record pools; every file rendered, parsed by the real parser and queried through the real fill_symbol at every address under three module bases; plus a TLA+ state machine of the record-level parser (SymParse.tla: top level / inside FUNC / inside STACK CFI INIT, closing and failing lines, final sort and overlap rule) whose every line sequence is parsed by the real parser and compared table by table",
    text="The lookup result is specified without any search structure: FUNC cover, PUBLIC fallback with FUNC cut-off, STACK WIN parameter-size precedence, line records with dropped zero-size entries, inline chains to depth 3 incl. a multi-range INLINE record. TLC builds every file of up to MaxRecs records, checks that bases never exceed the address, that the function covers it or is the nearest PUBLIC, and that inline frames nest; the real parser + fill_symbol must return exactly the specified FrameSymbolizer calls for each (file, address, module base).",
-   note="Trusted: TLC, SymLookup.tla, the renderer/recorder in replay_symlookup.rs. Records of one kind do not overlap in generated files (overlap policy is C08). Depth > 3 chains and random large files are not covered."),
+   note="Trusted: TLC, SymLookup.tla, the renderer/recorder in replay_symlookup.rs. Records of one kind do not overlap in generated files (overlap policy is C08). Depth > 3 chains and random large files are not covered. SymParse line tokens are a fixed alphabet of 28 lines (rendered by replay_symparse.rs)."),
  "C17": dict(
    level="model_checking", design_ref="DESIGN.md section 5 'C17'",
    technique="TLA+ string-level specification of the lookup path builders and of the containment predicate (Paths.tla); TLC enumerates module names as token sequences; the real builders' outputs are recorded and TLC evaluates Contained on each real output (Trace_Paths.tla)",
